@@ -189,6 +189,18 @@ def judgeDial (cfg : DialCfg) (raw resp : Bytes) (err protoObs extsObs req rest 
         && protoVals.isEmpty && extVals.isEmpty && !cfg.onHeaderRej
       if must then s!"bad:valid-response-refused-{err}" else "ok"
 
+/-- the accept value with the two unused (padding) bits of its last base64 digit changed: a
+    different header value that decodes to the same 20 bytes under a lenient base64 decoder. -/
+def acceptAlt (key : Bytes) (x : Nat) : Bytes :=
+  let a := acceptOf key
+  let c := a.getD 26 0
+  let i := ((List.range 64).find? fun i => b64Char i == c).getD 0
+  a.set 26 (b64Char (i ^^^ x))
+
+def substAccept (resp nonce : Bytes) : Bytes :=
+  let r0 := replaceAll resp (strBytes "@ACCEPT@") (acceptOf nonce)
+  [1, 2, 3].foldl (fun r x => replaceAll r (strBytes s!"@ACCEP{x}@") (acceptAlt nonce x)) r0
+
 def c10dl (a : List String) (obs : String) : String × String :=
   match a with
   | [cfgS, urlS, respS, k, fin] =>
@@ -197,7 +209,7 @@ def c10dl (a : List String) (obs : String) : String × String :=
     let f := obs.splitOn " "
     let get (k : String) : String := ((f.filter (·.startsWith (k ++ "="))).headD "").drop (k.length + 1) |>.toString
     let nonce := hexOr (get "nonce")
-    let resp := replaceAll (hexOr respS) (strBytes "@ACCEPT@") (acceptOf nonce)
+    let resp := substAccept (hexOr respS) nonce
     let s : Src := { chunks := chunksOf (natOr k) resp, fin := if fin.startsWith "F" then .fail else .eof, dataWithFin := fin.endsWith "d" }
     let req := writeUpgradeRequest cfg (hexOr (get "uri")) (hexOr (get "uhost")) nonce
     let (hs, e, b) := dialerUpgrade cfg nonce s
